@@ -536,6 +536,9 @@ static void inject(int fd, char kind, int copies)
   }
 }
 
+static ares_int64_t t0_sec;
+static int          had_reply;
+
 static void case_retry(char *args)
 {
   char              *parts[2], *cfg[8], *acts[2100];
@@ -551,6 +554,7 @@ static void case_retry(char *args)
   S = (int)num(cfg[0]); tries = num(cfg[1]); timeout = num(cfg[2]); maxtimeout = num(cfg[3]);
   jmode = (int)num(cfg[4]); flags = (int)num(cfg[5]);
   vnow.sec = num(cfg[6]); vnow.usec = 0;
+  t0_sec = vnow.sec; had_reply = 0;
   rng_state = (unsigned long long)(K * 2654435761u + 12345);
   idctr = 0;
   vs_reset();
@@ -588,6 +592,11 @@ static void case_retry(char *args)
     /* the theorems are stated for clock values below 2^61 s; saturated waits (2^63-1 ms each)
        would take the virtual clock beyond that after a few hundred attempts: stop there */
     if (vnow.sec >= ((ares_int64_t)1 << 61)) { OUT("CLOCKRANGE"); break; }
+    /* once a reply has been processed the per-server cookie record carries timestamps, and
+       ares_cookie.c:timeval_expired() computes the elapsed time in milliseconds in an int64:
+       more than 2^63/1000 s (292 million years) of virtual time after that overflows there.
+       Not a situation a real clock can produce: stop short of it (2^52 s) */
+    if (had_reply && vnow.sec - t0_sec >= ((ares_int64_t)1 << 52)) { OUT("CLOCKRANGE"); break; }
     const char    *a = (ai < nacts) ? acts[ai++] : "t";
     if (a[0] == 't' || a[0] == 'e' || a[0] == 'l') {
       tv = ares_timeout(ch, NULL, &tvbuf);
@@ -611,6 +620,7 @@ static void case_retry(char *args)
       int copies = a[2] ? (int)num(a + 2) : 1;
       if (copies < 1) copies = 1;
       if (copies > 500) copies = 500;
+      had_reply = 1;
       OUT("E reply %c %d %d", a[1], copies, (lastfd >= FD0) ? vs[lastfd - FD0].tcp : -1);
       if (lastfd >= FD0 && !vs[lastfd - FD0].closed) {
         inject(lastfd, a[1], copies);
@@ -619,6 +629,7 @@ static void case_retry(char *args)
     } else if (a[0] == 'B') {
       /* several messages of the given kinds queued on the connection, ONE read */
       const char *p;
+      had_reply = 1;
       OUT("E batch %s %d", a + 1, (lastfd >= FD0) ? vs[lastfd - FD0].tcp : -1);
       if (lastfd >= FD0 && !vs[lastfd - FD0].closed) {
         int fd = lastfd;
